@@ -212,3 +212,16 @@ PROPS['C18'] = dict(
     assumptions=['replies are attributed through a caller id carried in the command, the handler result and the notification metadata',
                  'a listener goroutine still alive 1 s after quiescence is a leak (pprof labels)'],
 )
+
+PROPS['C15'] = dict(
+    level='model_checking',
+    design=[D('MCCqrs', 'MCCqrs.cfg')],
+    traces={'CqrsTrace': dict(module='CqrsTrace', cfg='CqrsTrace.cfg')},
+    rule='runs = {command, event, event-group processor} x registries of 1..3 handlers over two types with scripted failures x {AckOnUnknownEvent, AckCommandHandlingErrors} x '
+         '{JSON, Protobuf marshaler} x {fully-qualified, struct, Named-with-fallback name generators}; every subscription is fed messages of both handled types, an unhandled '
+         'type, a malformed payload of a handled type, a foreign type name and no type name; then values of all types are sent through CommandBus and EventBus in front of a '
+         'capturing publisher; non-trivial = registry with at least two handlers',
+    exhaustive=True,
+    min_stats={'cases': 100},
+    assumptions=['a payload that does not decode is expected to be Nacked (the handler is never invoked); the statement itself is silent about malformed payloads'],
+)
